@@ -1044,11 +1044,9 @@ func opC05Region(raw json.RawMessage, o *Out) {
 			for l := c05Clamp(nat-1, 0, 30); l <= c05Clamp(nat+2, 0, 30); l++ {
 				rc := &s2.RegionCoverer{MinLevel: l, MaxLevel: l, LevelMod: 1, MaxCells: 1}
 				ids := rc.Covering(grown)
-				if len(ids) > 400 {
-					ids = ids[:400]
-				}
-				for _, id := range ids {
-					addCell(id)
+				step := len(ids)/40 + 1
+				for x := (c.Size + c.Place[0]) % step; x < len(ids); x += step {
+					addCell(ids[x])
 				}
 			}
 		}
